@@ -109,3 +109,120 @@ def oracle(case):
 
 
 SUBS = [Sub("command_histories", strategy=case_st(), oracle=oracle, examples={"quick": 800, "thorough": 30000})]
+
+
+# ---------------------------------------------------------------------------
+# trxcon compatibility: commands are produced by the unmodified trx_if.c, answered by FakeTRX,
+# and the answer is fed back into trxcon's response parser.
+from harness import trxif, cbuild          # noqa: E402
+from harness.core import Ctx, Violation    # noqa: E402
+
+_t = {}
+
+
+def prepare(ctx):
+    _t["exe"] = trxif.build(ctx)
+
+
+def trx():
+    import os
+    if "exe" not in _t:
+        prepare(Ctx("C05", "quick", 1))
+    k = ("t", os.getpid())
+    if k not in _t:
+        _t[k] = trxif.TrxIf(_t["exe"])
+    return _t[k]
+
+
+ARFCN = st.one_of(st.sampled_from([0, 1, 124, 128, 251, 259, 293, 306, 340, 438, 511, 512, 885, 955, 1023, 125, 300, 900]),
+                  st.integers(0, 1023))
+
+
+@st.composite
+def trxcon_cmd(draw):
+    k = draw(st.sampled_from(["reset", "poweron", "poweroff", "measure", "setfreq_h0", "setfreq_h0", "setslot", "setta", "setfh", "setfh"]))
+    if k in ("reset", "poweron", "poweroff"):
+        return k
+    if k in ("measure", "setfreq_h0"):
+        return "%s %d" % (k, draw(ARFCN))
+    if k == "setslot":
+        return "setslot %d %d" % (draw(st.integers(0, 7)), draw(st.integers(0, 10)))
+    if k == "setta":
+        return "setta %d" % draw(S.biased(-128, 127))
+    n = draw(st.one_of(st.integers(1, 8), st.sampled_from([1, 16, 32, 63, 64]), st.integers(1, 64)))
+    band = draw(st.sampled_from(["gsm900", "gsm900", "dcs", "mixed"]))
+    base = {"gsm900": 1, "dcs": 512, "mixed": 100}[band]
+    step = {"gsm900": 1, "dcs": 2, "mixed": 9}[band]
+    ar = [base + i * step for i in range(n)]
+    return "setfh %d %d %d %s" % (draw(st.integers(0, 63)), draw(st.integers(0, n - 1)), n, " ".join(map(str, ar)))
+
+
+def roundtrip_oracle(case):
+    s = Session({"trx_defs": []}, {"reply"}, "c05")
+    ms = 1
+    t = trx()
+    refused = 0
+    roundtrips = 0
+    longest = 0
+    try:
+        try:
+            t.req("open")
+            for c in case["cmds"]:
+                out = trxif.TrxIf.parse(t.req("cmd " + c))
+                if out["rc"] != 0:
+                    refused += 1          # trxcon itself refuses to encode (undefined ARFCN, MA too long)
+                    if out["ctrl"]:
+                        raise Violation("c05:trxcon:refused-yet-sent", "%r: rc=%d but %r sent" % (c, out["rc"], out["ctrl"]))
+                    continue
+                pending = list(out["ctrl"])
+                if len(pending) != 1:
+                    raise Violation("c05:trxcon:command-count", "%r: %d datagrams emitted at once" % (c, len(pending)))
+                while pending:
+                    d = pending.pop(0)
+                    if not d.startswith(b"CMD ") or not d.endswith(b"\0"):
+                        raise Violation("c05:trxcon:command-form", "trxcon emitted %r" % d[:40])
+                    longest = max(longest, len(d))
+                    toks = d[4:-1].decode("ascii").split(" ")
+                    verb, args = toks[0], toks[1:]
+                    reply = s.cmd(ms, verb, args, raw=d)
+                    if len(reply) != 1:
+                        raise Violation("c05:trxcon:no-reply", "FakeTRX sent %d replies to %r" % (len(reply), d[:60]))
+                    payload = reply[0][2]
+                    status = int(payload.split(b" ")[2].rstrip(b"\0"))
+                    critical = verb != "SETTA"
+                    o2 = trxif.TrxIf.parse(t.req("ctrl " + payload.hex()))
+                    roundtrips += 1
+                    term = o2["state"]["term"] == 1
+                    if status == 0 or not critical:
+                        if term or o2["rc"] != 0:
+                            raise Violation("c05:trxcon:reply-not-accepted:%s" % verb,
+                                            "trxcon (rc=%r, terminated=%r) did not accept %r as the response to %r" % (
+                                                o2["rc"], term, payload[:80], d[:80]))
+                    else:
+                        if not term:
+                            raise Violation("c05:trxcon:error-status-not-noticed:%s" % verb, "status %d for critical %r" % (status, d[:40]))
+                        break
+                    if verb == "MEASURE":
+                        exp_arfcn = int(c.split()[1])
+                        dbm = int(payload.rstrip(b"\0").split(b" ")[-1])
+                        if o2["rsp_measure"] != (exp_arfcn, dbm):
+                            raise Violation("c05:trxcon:measure-result", "trxcon surfaced %r, request was ARFCN %d, reply %r" % (
+                                o2["rsp_measure"], exp_arfcn, payload))
+                    pending += o2["ctrl"]
+        except cbuild.DriverCrash as cr:
+            raise Violation("c05:trxcon:crash:" + cr.signature(), cr.stderr[-500:])
+        cl = ["trxcon-roundtrip"]
+        if refused:
+            cl.append("trxcon-refused-to-encode")
+        if longest > 128:
+            cl.append("command>128-octets")
+        if longest > 512:
+            cl.append("command>512-octets")
+        return (cl, roundtrips > 0, {"cmds": [c[:60] for c in case["cmds"]], "roundtrips": roundtrips, "longest_command": longest})
+    finally:
+        s.close()
+
+
+SUBS.append(Sub("trxcon_roundtrip", strategy=st.fixed_dictionaries({"cmds": st.lists(trxcon_cmd(), min_size=1, max_size=12)}),
+                oracle=roundtrip_oracle, examples={"quick": 500, "thorough": 16000}, shards={"quick": 1, "thorough": 8},
+                prepare=prepare))
